@@ -111,6 +111,8 @@ def rule(ctx, rep, prop, focus):
                    "conditional on nothing but 'has a tree' and the item's kind" % ", ".join(focus))
     clo, paths = tabulate(facts)
     fclo = facts.fns[clo]
+    import c12 as _c12h
+    _c12h.inherit_h7(ctx, rep, prop)   # the pipeline's output must reach the caller untouched
     if not focus or "resolve_types" in focus:
         captures_rule(facts, rep, prop, clo)   # shared state reaches a file through name resolution (and makes the output order-dependent)
     qn = qn_closures(facts, clo)
